@@ -55,6 +55,10 @@ fn replay_p<P: Prop>(f: &str) -> i32 {
     runner::replay::<P>(f)
 }
 
+fn serde_json_case<T: serde::de::DeserializeOwned>(line: &str) -> Option<T> {
+    runner::from_json(line)
+}
+
 fn arg<'a>(args: &'a [String], key: &str) -> Option<&'a str> {
     args.iter()
         .position(|a| a == key)
@@ -85,50 +89,60 @@ fn main() {
             dispatch!(args[2].as_str(), worker_p(&a))
         }
         Some("replay") if args.len() >= 4 => dispatch!(args[2].as_str(), replay_p(&args[3])),
-        Some("mirileg") if args.len() >= 5 => {
-            // gv mirileg <ID> <slice> <nslices> [stride]: executes a deterministic
-            // slice of small cases in-process (meant to run under `cargo miri run`);
-            // every case is printed before it runs, so the last line names the culprit
-            let slice: u64 = args[3].parse().unwrap_or(0);
-            let n: u64 = args[4].parse::<u64>().unwrap_or(1).max(1);
-            let stride: u64 = args.get(5).and_then(|s| s.parse().ok()).unwrap_or(1).max(1);
-            runner::install_quiet_hook();
-            let mut done = 0_u64;
+        Some("miri-cases") if args.len() >= 3 => {
+            // natively: print the cases of the Miri leg, one JSON object per line
+            let stride: u64 = args.get(3).and_then(|s| s.parse().ok()).unwrap_or(1).max(1);
+            let offset: u64 = args.get(4).and_then(|s| s.parse().ok()).unwrap_or(0);
             match args[2].as_str() {
                 "C13" => {
-                    let total = props::c13::miri_cases_len();
-                    let mut i = slice;
-                    while i < total {
-                        if (i / n) % stride == 0 {
-                            if let Some(case) = props::c13::miri_case(i) {
-                                println!("CASE {}", runner::to_json(&case));
-                                let mut obs = runner::Obs::default();
-                                if let Err(m) = <props::c13::C13 as Prop>::check(&case, &mut obs) {
-                                    println!("ORACLE-FAILURE {m}");
-                                    std::process::exit(1);
-                                }
-                                done += 1;
-                            }
+                    let mut k = 0_u64;
+                    for case in props::c13::miri_cases() {
+                        if k % stride == offset % stride {
+                            println!("{}", runner::to_json(&case));
                         }
-                        i += n;
+                        k += 1;
                     }
                 }
                 "C17" => {
-                    let cases = props::c17::miri_cases();
-                    for (i, case) in cases.iter().enumerate() {
-                        if i as u64 % n != slice {
-                            continue;
-                        }
-                        println!("CASE {}", runner::to_json(case));
-                        let mut obs = runner::Obs::default();
-                        if let Err(m) = <props::c17::C17 as Prop>::check(case, &mut obs) {
-                            println!("ORACLE-FAILURE {m}");
-                            std::process::exit(1);
-                        }
-                        done += 1;
+                    for case in props::c17::miri_cases() {
+                        println!("{}", runner::to_json(&case));
                     }
                 }
                 _ => {}
+            }
+            0
+        }
+        Some("mirileg") if args.len() >= 6 => {
+            // gv mirileg <ID> <file> <slice> <nslices>: executes a slice of the cases in
+            // <file> in-process (meant to run under `cargo miri run`); every case is
+            // printed before it runs, so the last CASE line names the culprit
+            let text = std::fs::read_to_string(&args[3]).unwrap_or_default();
+            let slice: usize = args[4].parse().unwrap_or(0);
+            let n: usize = args[5].parse::<usize>().unwrap_or(1).max(1);
+            runner::install_quiet_hook();
+            let mut done = 0_u64;
+            for (i, line) in text.lines().enumerate() {
+                if i % n != slice || line.trim().is_empty() {
+                    continue;
+                }
+                println!("CASE {line}");
+                let verdict = runner::guarded(|| match args[2].as_str() {
+                    "C13" => match serde_json_case::<props::c13::Case>(line) {
+                        Some(c) => <props::c13::C13 as Prop>::check(&c, &mut runner::Obs::default()),
+                        None => Err("harness: bad case line".into()),
+                    },
+                    "C17" => match serde_json_case::<props::c17::Case>(line) {
+                        Some(c) => <props::c17::C17 as Prop>::check(&c, &mut runner::Obs::default()),
+                        None => Err("harness: bad case line".into()),
+                    },
+                    _ => Ok(()),
+                })
+                .unwrap_or_else(|p| Err(format!("harness panic outside a guard: {p}")));
+                if let Err(m) = verdict {
+                    println!("ORACLE-FAILURE {m}");
+                    std::process::exit(1);
+                }
+                done += 1;
             }
             println!("MIRILEG-DONE {done}");
             0
